@@ -83,14 +83,14 @@ impl<'a> Headers<'a> {
         }
 
         if name.eq_ignore_ascii_case(Self::TRANSFER_ENCODING) {
-            for v in value.split(|&b| b == b',').map(|v| v.trim_ascii_start()) {
+            for v in value.split(|&b| b == b',').map(|v| v.trim_ascii()) {
                 if v.eq_ignore_ascii_case(b"chunked") {
                     self.chunked = true;
                     break;
                 }
             }
         } else if name.eq_ignore_ascii_case(Self::CONNECTION) {
-            for v in value.split(|&b| b == b',').map(|v| v.trim_ascii_start()) {
+            for v in value.split(|&b| b == b',').map(|v| v.trim_ascii()) {
                 if v.eq_ignore_ascii_case(b"close") {
                     self.connection_close = true;
                     break;
